@@ -114,3 +114,22 @@ Theorem C07_batch_of_sure_losers_partial : forall A S (ZL : zlike A S) cfg, exac
   exists c, In c (hopefuls A s) /\ rsum A S ZL (batch_defeat A cfg surp s) + raw ZL surp < raw ZL (cvote c).
 Proof. exact batch_defeat_sure_losers. Qed.
 Print Assumptions C07_batch_of_sure_losers_partial.
+
+(* ---- Meek family: "within the current total surplus".  The exclusion step of meek, warren and meek-prf, in every state,
+   when it does not crash: the excluded candidate is a hopeful whose tally is at most the lowest hopeful tally plus the total
+   surplus (plus nothing when rounding has left the surplus negative), and nobody else's status changes.
+   [vmin_minimal]: the arithmetic's min() returns a minimal element -- proved below for the fixed-point arithmetic of the PRF
+   reference rule (and of meek/warren with arithmetic=fixed), whose min() is Python's fold under its own <. *)
+From Droop Require Import Model.RulesMeek.
+Theorem C07_meek_exclusion_is_within_the_surplus : forall A S (ZL : zlike A S) cfg, exact A = false ->
+  forall fmt rd (s : est A), vmin_minimal A S ZL ->
+  crashed (meek_defeat_low A cfg fmt rd s) = false ->
+  exists c, In c (hopefuls A s) /\
+    (forall c', In c' (hopefuls A s) -> raw ZL (cvote c) <= raw ZL (cvote c') + Z.max 0 (raw ZL (surplus s))) /\
+    stl A (cands (meek_defeat_low A cfg fmt rd s)) = stl A (upd_cand A (cid c) (fun x => with_st x Defeated (cpend x)) (cands s)).
+Proof. exact meek_defeat_low_within_surplus. Qed.
+Print Assumptions C07_meek_exclusion_is_within_the_surplus.
+
+Theorem C07_fixed_point_min_is_minimal : forall p d S (ZL : zlike (Fixed p d) S), exact (Fixed p d) = false -> vmin_minimal (Fixed p d) S ZL.
+Proof. exact (fun p d S ZL Hex => vmin_fold_minimal (Fixed p d) S ZL Hex (vmin_fold_fixed p d)). Qed.
+Print Assumptions C07_fixed_point_min_is_minimal.
